@@ -109,14 +109,18 @@ h("put_step_n4", "ranger_l::put_step::<S, 4>", ["C02", "C01"], "quick", unwind=9
 h("put_commute_n4", "ranger_l::put_commute::<S, 4>", ["C02"], "quick", unwind=9, family="put_commute")
 PM_STUBS = DEFAULT_STUBS + ["cteq", "blake3empty"]
 # process_message is expensive for CBMC's symbolic execution (pointer value sets over Vec<MessagePart>): thorough tier only
+# process_message over L: measured, never finishes symbolic execution (N=3: 5400 s cap twice; N=2,V=1,have_local: > 20 min with
+# tight unwindsets; the message's Vecs lose their constant lengths/flags when moved through realloc/memcpy, so both branches of
+# every loop and of have_local are explored).  Replaced by the E3 queries pm_item_loop / pm_fingerprint_gate over the real
+# generic coroutine (mirsmt/queries.py).  Bodies stay for native replay only.
 PM_UW = {r"process_message.*\{closure#0\}\.\d+$": 3, r"Iterator>::any::<": 3, r"LIter as .*Iterator>::next": 8, r"Iterator>::try_fold": 8}
-h("pm_item_step_n2_v1_hl", "ranger_l::pm_item_step::<S, 2, 1, 1>", ["C01", "C03", "C12"], "thorough", unwind=9, stubs=PM_STUBS, family="pm_item_step", cap=3600, mem_gb=40)
-h("pm_item_step_n2_v1_hl_uw", "ranger_l::pm_item_step::<S, 2, 1, 1>", ["C01", "C03", "C12"], "thorough", unwind=9, unwindset=PM_UW, stubs=PM_STUBS, family="pm_item_step", cap=3600, mem_gb=40)
-h("pm_item_step_n3_v1_hl", "ranger_l::pm_item_step::<S, 3, 1, 1>", ["C01", "C03", "C12"], "thorough", unwind=9, stubs=PM_STUBS, family="pm_item_step", cap=5400, mem_gb=40)
-h("pm_item_step_n3_v2_hl", "ranger_l::pm_item_step::<S, 3, 2, 1>", ["C01", "C03", "C12"], "thorough", unwind=9, stubs=PM_STUBS, family="pm_item_step", cap=5400, mem_gb=40)
-h("pm_item_step_n3_v1", "ranger_l::pm_item_step::<S, 3, 1, 2>", ["C01", "C03", "C12"], "thorough", unwind=9, stubs=PM_STUBS, family="pm_item_step", cap=5400, mem_gb=40)
-h("pm_item_step_n4_v2", "ranger_l::pm_item_step::<S, 4, 2, 2>", ["C01", "C03", "C12"], "off_generated", unwind=9, stubs=PM_STUBS, family="pm_item_step", cap=5400, mem_gb=40)
-h("pm_init_and_silence_n2", "ranger_l::pm_init_and_silence::<S, 2>", ["C01"], "thorough", unwind=9, unwindset={r"BitXorAssign>::bitxor_assign\.0": 34, r"^memcmp\.0$": 34}, stubs=PM_STUBS, family="pm_init_and_silence", cap=5400, mem_gb=40)
+h("pm_item_step_n2_v1_hl", "ranger_l::pm_item_step::<S, 2, 1, 1>", ["C01", "C03", "C12"], "off", unwind=9, stubs=PM_STUBS, family="pm_item_step", cap=3600, mem_gb=40)
+h("pm_item_step_n2_v1_hl_uw", "ranger_l::pm_item_step::<S, 2, 1, 1>", ["C01", "C03", "C12"], "off", unwind=9, unwindset=PM_UW, stubs=PM_STUBS, family="pm_item_step", cap=3600, mem_gb=40)
+h("pm_item_step_n3_v1_hl", "ranger_l::pm_item_step::<S, 3, 1, 1>", ["C01", "C03", "C12"], "off", unwind=9, stubs=PM_STUBS, family="pm_item_step", cap=5400, mem_gb=40)
+h("pm_item_step_n3_v2_hl", "ranger_l::pm_item_step::<S, 3, 2, 1>", ["C01", "C03", "C12"], "off", unwind=9, stubs=PM_STUBS, family="pm_item_step", cap=5400, mem_gb=40)
+h("pm_item_step_n3_v1", "ranger_l::pm_item_step::<S, 3, 1, 2>", ["C01", "C03", "C12"], "off", unwind=9, stubs=PM_STUBS, family="pm_item_step", cap=5400, mem_gb=40)
+h("pm_item_step_n4_v2", "ranger_l::pm_item_step::<S, 4, 2, 2>", ["C01", "C03", "C12"], "off", unwind=9, stubs=PM_STUBS, family="pm_item_step", cap=5400, mem_gb=40)
+h("pm_init_and_silence_n2", "ranger_l::pm_init_and_silence::<S, 2>", ["C01"], "off", unwind=9, unwindset={r"BitXorAssign>::bitxor_assign\.0": 34, r"^memcmp\.0$": 34}, stubs=PM_STUBS, family="pm_init_and_silence", cap=5400, mem_gb=40)
 h("put_commute_n5", "ranger_l::put_commute::<S, 5>", ["C02"], "thorough", unwind=9, family="put_commute")
 
 # =============================================================================================
@@ -240,36 +244,37 @@ COMMON_ASSUMPTIONS = [
     "Kani models the dev profile (overflow checks and debug assertions on); native replay runs dev and (thorough) release",
 ]
 
+E3ENG = "E3 mirsmt: nightly MIR dump of /repo's working tree (regenerated per run), symbolic execution of the loop-free bodies, z3 4.8 cross-checked with cvc5 1.0; native witness for sat"
 KANI = "Kani 0.68 / CBMC 6.11 (cadical), unwinding assertions on, one cargo-kani process per harness; counterexamples re-run natively by /verif/replay"
 
 META["C01"] = dict(
-    engine=KANI,
-    functions=["ranger::Store::put (generic, over the light instantiation L)", "ranger::Store::process_message (item parts; L)",
-               "ranger::Message::init", "sync::Record::cmp", "sync::RecordIdentifier::cmp/new/accessors", "sync::Entry::encode"],
-    bounds="L: keys <= 2 bytes over all byte values, values u8, stores <= 3-4 entries, one message part with <= 1-2 values; S: keys <= 2 bytes, all other fields full width",
-    outside="whole sessions (decided step-wise: one-step lemmas + induction on paper), fingerprint parts with recursion (split) — see DESIGN.md, file-backed store, sets larger than the bound",
+    engine=KANI + " + " + "E3 mirsmt (MIR -> SMT, z3 + cvc5) for the generic async process_message",
+    functions=["ranger::Store::put (generic, over the light instantiation L)", "ranger::Store::process_message::{closure#0} (generic coroutine MIR: the per-entry loop of item parts, the gate of fingerprint parts)",
+               "sync::Record::cmp", "sync::RecordIdentifier::cmp/new/accessors", "sync::Entry::encode", "SignedEntry::as_fingerprint input"],
+    bounds="L: keys <= 2 bytes over all byte values, values u8, stores <= 3-4 entries; S: keys <= 2 bytes, all other fields full width; process_message: one loop iteration from the iterator's next() to the next one, all paths (callbacks, put, store errors symbolic), plus unbounded block-graph reachability across suspension points",
+    outside="whole sessions (decided step-wise: one-step lemmas + induction on paper); the contents of replies (item diff, recursion anchor, range splitting) — the Kani harnesses over process_message on L never finish symbolic execution (DESIGN.md §10.3); file-backed store; sets larger than the bound",
     assumptions=COMMON_ASSUMPTIONS + ["ideal fingerprint on the L domain (one bit per element): no collisions inside the bound",
-                                       "futures-buffered FuturesOrdered replaced by a sequential-polling model (same output order)"],
+                                       "process_message queries: callbacks, put, get_fingerprint, Fingerprint::eq are uninterpreted (their results are free symbols); Vec::IntoIter yields the message's values in order"],
 )
 META["C03"] = dict(
-    engine=KANI,
+    engine=KANI + " + " + E3ENG,
     functions=["sync::validate_entry", "sync::SignedEntry::verify", "sync::EntrySignature::verify", "sync::Entry::{encode,to_vec,validate_empty}",
                "keys::{NamespaceId,AuthorId}::public_key", "store::PublicKeyStore::{namespace_key,author_key}",
-               "ranger::Store::process_message validate_cb gating (L)"],
+               "ranger::Store::process_message::{closure#0} validate_cb / put / on_insert gating (generic coroutine MIR, E3)"],
     bounds="key length of the honest entry and of the received entry in {0,1,2}; every other field, both signatures, the clock and the expected namespace fully symbolic; now < 2^62",
     outside="ed25519 itself (ideal signature scheme stub); the validate closure inside Replica::sync_process_message (async closure: not compilable by Kani; E3)",
     assumptions=COMMON_ASSUMPTIONS + ["iroh::PublicKey::{from_bytes,verify} replaced by an ideal signature scheme: verify succeeds iff (key, message, signature) is an honestly produced row; from_bytes fails exactly on the harness-chosen non-curve id",
                                        "n0_error call-site capture disabled"],
 )
 META["C07"] = dict(
-    engine=KANI,
+    engine=KANI + " + " + E3ENG,
     functions=["sync::Capability::{merge,raw,from_raw,id,kind,secret_key}", "keys::NamespaceSecret::{from_bytes,to_bytes,id,public_key}"],
     bounds="all 32-byte ids/secrets fully symbolic; one merge step from an arbitrary pair of capabilities (sequences by induction on the one-step law)",
     outside="store/actor propagation of the merged capability (E2/E3), histories",
     assumptions=COMMON_ASSUMPTIONS + ["iroh::SecretKey::{from_bytes,to_bytes,public} stubbed as a unit: public key = injective function of the secret (bitwise complement)"],
 )
 META["C11"] = dict(
-    engine=KANI,
+    engine=KANI + " + " + E3ENG,
     functions=["engine::live::LiveActor::on_sync_via_connect_finished (E3 reachability query over the coroutine MIR)",
                "engine::state::PeerState::{start_connect,accept_request,finish,abort_connect,set_sync_running}", "engine::state::expected_sync_direction",
                "engine::state::NamespaceStates::{accept_request,start_connect,is_syncing}"],
@@ -278,7 +283,6 @@ META["C11"] = dict(
     assumptions=COMMON_ASSUMPTIONS + ["tokio Instant::now / SystemTime::now replaced by constants (only stored)",
                                        "PeerState starts Idle with a previous session result stored (a reachable state)"],
 )
-E3ENG = "E3 mirsmt: nightly MIR dump of /repo's working tree (regenerated per run), symbolic execution of the loop-free bodies, z3 4.8 cross-checked with cvc5 1.0; native witness for sat"
 META["C13"] = dict(
     engine=E3ENG,
     functions=["store::fs::StoreInstance::entry_put::{closure#0} (the write of records / by-key / latest-per-author rows)"],
@@ -356,9 +360,9 @@ META["C16"].update(dict(
     functions=META["C16"]["functions"] + ["store::fs::Store::remove_replica and its transaction closure (E3)"],
 ))
 META["C12"] = dict(
-    engine=KANI,
-    functions=["ranger::Store::process_message on_insert contract (L)", "store::DownloadPolicy::matches"],
-    bounds="see C01/C15",
+    engine=KANI + " + " + E3ENG,
+    functions=["ranger::Store::process_message::{closure#0} on_insert contract (generic coroutine MIR, E3)", "sync::Replica::sync_process_message event closure (E3)", "store::DownloadPolicy::matches"],
+    bounds="see C01/C15; the event closure: all paths",
     outside="Subscribers::send (async closures), the event construction closure in sync_process_message (E3), actor acknowledgement order",
     assumptions=COMMON_ASSUMPTIONS,
 )
